@@ -481,7 +481,20 @@ def run_shapes(rec, seed, shard, nshards, tier):
     core.hyp_run(rec, prop_shapes, shape_cases(), n, seed)
 
 
+def run_large_trained(rec, seed, shard, nshards, tier):
+    """Scale: a training list of 42 000 distinct passwords (more than 32 768 rows in the OMEN tables and in one Alpha list) through
+    the real trainer and all loaders."""
+    import itertools
+    abc = 'abcdefghijklmnopqrstuvwxyz0123456789'
+    words = [''.join(t) for t in itertools.islice(itertools.product(abc, repeat=4), 0, 36 ** 4, 39)][:42000]
+    case = {'entries': [[w, 1] for w in words] + [['password1', 6], ['Monkey12', 5], ['iloveyou', 5], ['love2019!', 2]], 'encoding': 'utf-8',
+            'raw_lines': [], 'coverage': 0.6, 'ngram': 4, 'alphabet_size': 100, 'previous_training': False, 'file_style': None}
+    rec.cls('training_list_of_42000_distinct_passwords')
+    prop(case, rec)
+
+
 PARTS = [
+    Part('large_trained_list', run_large_trained, replay_values, {'quick': 1, 'thorough': 1}),
     Part('probability_shapes', run_shapes, prop_shapes, {'quick': 2, 'thorough': 8}),
     Part('large_files', run_large, replay_values, {'quick': 1, 'thorough': 1}),
     Part('exhaustive_code_points', run_sweep, replay_values, {'quick': 16, 'thorough': 16}),
